@@ -17,7 +17,7 @@ def combos(ctx, rnd):
     path_exc = [(), ('**/x',), ('a/*',), ('*',)]
     d_inc = [(), ('a',), ('d',), ('.*',), ('*',), ('L',), ('b', 'd')]
     d_exc = [(), ('a',)]
-    dp_inc = [(), ('a/',), ('**/d/',), ('*/',), ('d/d/',), ('a',), ('**/.d/',)]
+    dp_inc = [(), ('a/',), ('**/d/',), ('*/',), ('d/d/',), ('a',), ('**/.d/',), ('d',), ('q',), ('x',), ('/d',)]
     names = list(symfs.templates())
     out = []
     cases = []
@@ -40,6 +40,8 @@ def combos(ctx, rnd):
             fl |= DP
             if rnd.random() < 0.5:
                 fl |= GS
+            if rnd.random() < 0.4:
+                fl |= MB
             dinc, dexc = rnd.choice(dp_inc), ()
         else:
             dinc, dexc = rnd.choice(d_inc), rnd.choice(d_exc)
@@ -51,7 +53,8 @@ def combos(ctx, rnd):
     # the shapes the statement names explicitly
     cases += [((), ('*.bak', 'x'), (), (), R | FP), ((), ('x',), (), (), R | FP | H), ((), ('x',), ('a',), (), R), (('*',), (), ('d',), (), R), (('*',), (), ('d',), (), R | H),
               (('*',), (), ('.*',), (), R | H), (('*',), (), (), (), R), (('*',), (), (), (), R | SY | H), ((), (), (), (), R | H), (('x',), (), ('**/d/',), (), R | DP | GS | H),
-              (('**/x',), (), (), (), R | FP | GS), (('x',), (), (), (), R | FP | MB), (('*',), (), ('a',), (), 0), ((), ('**/x',), (), (), R | FP | GS | M)]
+              (('**/x',), (), (), (), R | FP | GS), (('x',), (), (), (), R | FP | MB), (('*',), (), ('d',), (), R | DP | MB), (('*',), (), ('q',), (), R | DP | MB | H),
+              (('*',), (), ('d',), (), R | DP | MB | FP), (('f',), (), (), (), R | MB), (('*',), (), ('/d',), (), R | DP | MB), (('*',), (), ('a',), (), 0), ((), ('**/x',), (), (), R | FP | GS | M)]
     for k, c in enumerate(cases):
         ts = names if not ctx.quick else [names[(k + j) % len(names)] for j in range(3)]
         for t in ts:
